@@ -141,18 +141,12 @@ def same(a, b, path="obj", seen=None, strict_order=True):
             return same(a.__getstate__(), b.__getstate__(), path + ".__getstate__()", seen)
         except Exception:
             pass
-    if hasattr(a, "__reduce__") and not hasattr(a, "__dict__"):
-        try:
-            ra, rb = a.__reduce__(), b.__reduce__()
-            return same(ra[1:], rb[1:], path + ".__reduce__()", seen)
-        except Exception:
-            return None if a == b else f"{path}: {a!r} vs {b!r}"
+    slots = [s for k in type(a).__mro__ for s in getattr(k, "__slots__", ()) if isinstance(s, str) and s not in ("__dict__", "__weakref__")]
     da, db = getattr(a, "__dict__", None), getattr(b, "__dict__", None)
     if da is not None:
         d = same(dict(da), dict(db), path + ".__dict__", seen)
         if d:
             return d
-    slots = [s for k in type(a).__mro__ for s in getattr(k, "__slots__", ()) if isinstance(s, str)]
     for s in slots:
         if hasattr(a, s) != hasattr(b, s):
             return f"{path}.{s}: present vs absent"
@@ -162,7 +156,11 @@ def same(a, b, path="obj", seen=None, strict_order=True):
                 return d
     if da is None and not slots:
         try:
-            return None if a == b else f"{path}: {a!r} vs {b!r}"
+            ra, rb = a.__reduce__(), b.__reduce__()
+            return same(ra[1:], rb[1:], path + ".__reduce__()", seen)
         except Exception:
-            return None
+            try:
+                return None if a == b else f"{path}: {a!r} vs {b!r}"
+            except Exception:
+                return None
     return None
